@@ -132,7 +132,7 @@ func xFindingCoords(fs []pgdump.SecretFinding, tok string) string {
 
 func extraListDB(files []string) string {
 	dir := xTree(files)
-	defer os.RemoveAll(dir)
+	defer release(dir)
 	dbs := pgdump.ListDatabases(dir)
 	parts := make([]string, len(dbs))
 	for i, d := range dbs {
@@ -143,7 +143,7 @@ func extraListDB(files []string) string {
 
 func extraDumpAll(o string, files []string) string {
 	dir := xTree(files)
-	defer os.RemoveAll(dir)
+	defer release(dir)
 	os.Setenv("PGDATA", dir)
 	defer os.Unsetenv("PGDATA")
 	res, err := pgdump.DumpAll(xParseOpts(o))
@@ -163,7 +163,7 @@ func extraDumpAll(o string, files []string) string {
 
 func extraAnalyze(db string, files []string) string {
 	dir := xTree(files)
-	defer os.RemoveAll(dir)
+	defer release(dir)
 	infos, err := pgdump.AnalyzeTOAST(dir, db)
 	if err != nil {
 		return "err"
@@ -177,7 +177,7 @@ func extraAnalyze(db string, files []string) string {
 
 func extraQuickSearch(pat string, files []string) string {
 	dir := xTree(files)
-	defer os.RemoveAll(dir)
+	defer release(dir)
 	return xShowHits(pgdump.QuickSearch(dir, pat))
 }
 
@@ -185,7 +185,7 @@ func extraQuickSearch(pat string, files []string) string {
 // text of at least 8 bytes: the real ScanString reports the token iff the text contains it, and nothing else)
 func extraSecrets(tok string, files []string) string {
 	dir := xTree(files)
-	defer os.RemoveAll(dir)
+	defer release(dir)
 	o := &pgdump.Options{SkipSystemTables: true}
 	dump, derr := pgdump.DumpDataDir(dir, o)
 	if derr == nil && dump != nil {
@@ -267,7 +267,7 @@ func extraMarshal(files []string) string {
 
 func init() {
 	core.SetEnvelope("extra", 512, 64<<20, 30000)
-	core.Register("extra", func(args []string) string {
+	core.Register("extra", checkedFiles(func(args []string) string {
 		switch args[0] {
 		case "listdb":
 			return extraListDB(args[1:])
@@ -285,5 +285,5 @@ func init() {
 			return extraMarshal(args[1:])
 		}
 		return "bad-args"
-	})
+	}))
 }
